@@ -201,7 +201,11 @@ class MLIRTokenKind(Enum):
             raise ValueError("Token is not an integer literal!")
         if span.text[:2] in ["0x", "0X"]:
             return int(span.text, 16)
-        return int(span.text, 10)
+        try:
+            return int(span.text, 10)
+        except ValueError:
+            # Python limits the number of digits of a decimal conversion
+            raise ParseError(span, "integer literal is too large")
 
     def get_float_value(self, span: Span):
         """
